@@ -2,14 +2,15 @@
 ID = 'C11'
 LEVEL = 'exploration'
 LEVEL_TEXT = ('bounded: every public mutator of every DOM class (enumerated mechanically from the class ASTs) is called in raising mode with inputs built to be rejected immediately, '
-              'after an acceptable prefix, inside a nested object or by position, on every reachable target of a fixed set of prior sheets and on detached objects; after each call that '
+              'after an acceptable prefix, inside a nested object or by position (hand-written tables, plus: the well-formed text of every rule kind given to the cssText setter of every rule kind - unknown at-rules with the '
+              'same and with another at-keyword -, and every codec Python ships given as new @charset encoding through CSSCharsetRule.encoding / .cssText and CSSStyleSheet.encoding), on every reachable target of a fixed set of prior sheets and on detached objects; after each call that '
               'raised xml.dom.DOMException the snapshot (cssText of target / owner rule / sheet, rule types, property list, selector list, media list, namespaces; the serialisation also under every '
               'serializer preference at a non-default value, one at a time, under useMinified() and with all preferences flipped) equals the one taken before; '
               'objects created read-only (constructor flag, or sheets / rules / rule lists through _readonly) answer every mutating call with NoModificationAllowedErr and stay unchanged, '
               'in raising mode and in log-only mode (cssutils.log.raiseExceptions False)')
 LEVEL_NOTE = ('no deductive part yet: the claim holds for the enumerated input tables and prior states only (fixed tables, 5 prior sheets in the quick tier, 28 in the thorough tier), not for all inputs and '
               'histories; preferences are varied one at a time plus two joint profiles, not in all combinations (quick tier: string-valued spacing preferences only jointly); the rejected-call clause is run '
-              'in log-only mode in the thorough tier only; rejection paths that no table entry reaches are not covered (the evidence lists the mutators that no input managed to get rejected); thirteen recorded findings are excluded by '
+              'in log-only mode in the thorough tier only; rejection paths that no table entry reaches are not covered (the evidence lists the mutators that no input managed to get rejected); fourteen recorded findings are excluded by '
               'sharp classes (known/C11.json)')
 TECHNIQUE = ('VC generation + z3 for the exceptional postconditions of the mutators under contract (insertRule / deleteRule family, appendMedium / deleteMedium, removeProperty, appendSelector); '
              'the statement as a whole is decided by bounded run-time contracts (snapshot-compare monitor) over the mechanically enumerated public mutators x rejected-at-every-stage input tables x prior states, each case on a freshly parsed '
